@@ -1321,6 +1321,16 @@ func runC12(cfg *config) error {
 				cases = append(cases, c12GenSubject(r))
 			}
 		}
+		// a decoder keeps nothing from one call to the next: values encoded and decoded right after byte strings
+		// that a decoder gave up on half-way
+		for i := 0; i < nv/5; i++ {
+			if r.Intn(2) == 0 {
+				cases = append(cases, c12GenMutated(r))
+			} else {
+				cases = append(cases, c12GenRaw(r))
+			}
+			cases = append(cases, c12GenValueCase(r))
+		}
 		if cfg.tier == "thorough" || cfg.search {
 			cases = append(cases, c12Exhaustive()...)
 		}
